@@ -83,6 +83,8 @@ func profileOf(name string) profile {
 		return profile{NodeLoss: true}
 	case "untracked":
 		return profile{Untracked: true}
+	case "volheavy":
+		return profile{VolHeavy: true}
 	case "assume:pid-reuse":
 		return profile{PidReuse: true}
 	case "assume:relabel":
@@ -97,6 +99,7 @@ func runHistory(seed uint64, profName string, script func(g *gen)) (res result) 
 	r := kit.NewRand(seed)
 	counts := map[string]int{}
 	g := &gen{r: r, w: newWorld(), prof: profileOf(profName), dirty: map[string]bool{}, ever: map[string]bool{}, bound: map[string]bool{},
+		nominated: map[string]bool{}, claimPool: map[string]string{},
 		count: func(k string) { counts[k]++ }, nNodes: r.Range(2, 4), nClaims: r.Range(1, 3), nPods: r.Range(2, 6),
 		histOK: true, roundStart: -1}
 	res.counts = counts
@@ -135,6 +138,7 @@ func runHistory(seed uint64, profName string, script func(g *gen)) (res result) 
 		if a, b := antiAffinityView(g.w.cluster), antiAffinityView(fc); strings.Join(a, ",") != strings.Join(b, ",") {
 			fresh = append(fresh, fmt.Sprintf("anti-affinity: cached=%v fresh=%v", a, b))
 		}
+		fresh = append(fresh, accessorDiff(g.w.cluster)...)
 		g.observe("final", premises)
 	})
 	if panicked {
@@ -230,6 +234,8 @@ func main() {
 			prof = "nodeloss"
 		case x < 9:
 			prof = "untracked"
+		case x < 11:
+			prof = "volheavy"
 		}
 		jobs = append(jobs, job{c.Rand.U64(), prof, nil})
 	}
